@@ -19,42 +19,51 @@ def run(pid, tier):
         # the two specification levels agree: model behaviours rendered as abstract events are
         # accepted by the property-level monitor, the defect variants' bad paths are rejected
         M.spec_crosscheck(chk)
-    # --- B1: transition tour of the replay configurations driven through the real code
-    M.replay_tours(chk, col, bindir, tier)
-    # --- free-running / stray wake / fault injection / large histories, all judged by TLC (B2)
-    S.free_running(chk, col, bindir, tier)
-    S.stray_wake(chk, col, bindir, tier)
-    S.directed_stray(chk, col, bindir, tier)
-    S.panic_kinds(chk, col, bindir, tier)
-    S.closure_work(chk, col, bindir, tier)
-    S.explore_handshake(chk, col, bindir, tier)
-    S.drop_race(chk, col, bindir, tier)
-    S.faults(chk, col, bindir, tier)
-    S.perturbed(chk, col, bindir, tier)
-    S.big_batches(chk, col, bindir, tier)
-    # --- B2 at algorithm level: the free-running thread lives are behaviours of the model
-    M.alg_validate(chk, col, cap=400 if tier == "quick" else 3000)
-    if tier != "quick":
-        rb = T.build(release=True)
-        M.replay_tours(chk, col, rb, "quick", tag="-release")
-        S.free_running(chk, col, rb, "quick", release=True, tag="-release")
-        S.stray_wake(chk, col, rb, "quick", release=True, tag="-release")
-        S.directed_stray(chk, col, rb, "quick", release=True, tag="-release")
-        S.panic_kinds(chk, col, rb, "quick", release=True, tag="-release")
-        S.closure_work(chk, col, rb, "quick", release=True, tag="-release")
-        S.explore_handshake(chk, col, rb, "quick", release=True, tag="-release")
-        S.drop_race(chk, col, rb, tier, release=True, tag="-release")
-        S.faults(chk, col, rb, "quick", release=True, tag="-release")
-        S.big_batches(chk, col, rb, tier, release=True, tag="-release")
-        # the other two link modes of the repository's runners (static, static PIE), release
-        for mode in ("static", "static-pie"):
-            mb = T.build(release=True, mode=mode)
-            M.replay_tours(chk, col, mb, "quick", tag="-" + mode)
-            S.free_running(chk, col, mb, "quick", release=True, tag="-" + mode)
-            S.stray_wake(chk, col, mb, "quick", release=True, tag="-" + mode)
-            S.directed_stray(chk, col, mb, "quick", release=True, tag="-" + mode)
-            S.faults(chk, col, mb, "quick", release=True, tag="-" + mode)
-        chk.extra["link_modes"] = ["dynamic PIE debug", "dynamic PIE release", "static release", "static-pie release"]
+    try:
+        # first of all: can a closure wait for its spawner?  (cheap, and a runtime in which spawn waits
+        # for the closure would make every scheduled scenario below run into its time-out)
+        S.spawner_releases(chk, col, bindir, tier)
+        # --- B1: transition tour of the replay configurations driven through the real code
+        M.replay_tours(chk, col, bindir, tier)
+        # --- free-running / stray wake / fault injection / large histories, all judged by TLC (B2)
+        S.free_running(chk, col, bindir, tier)
+        S.stray_wake(chk, col, bindir, tier)
+        S.directed_stray(chk, col, bindir, tier)
+        S.panic_kinds(chk, col, bindir, tier)
+        S.closure_work(chk, col, bindir, tier)
+        S.explore_handshake(chk, col, bindir, tier)
+        S.drop_race(chk, col, bindir, tier)
+        S.faults(chk, col, bindir, tier)
+        S.perturbed(chk, col, bindir, tier)
+        S.big_batches(chk, col, bindir, tier)
+        # --- B2 at algorithm level: the free-running thread lives are behaviours of the model
+        M.alg_validate(chk, col, cap=400 if tier == "quick" else 3000)
+        if tier != "quick":
+            rb = T.build(release=True)
+            M.replay_tours(chk, col, rb, "quick", tag="-release")
+            S.free_running(chk, col, rb, "quick", release=True, tag="-release")
+            S.stray_wake(chk, col, rb, "quick", release=True, tag="-release")
+            S.directed_stray(chk, col, rb, "quick", release=True, tag="-release")
+            S.panic_kinds(chk, col, rb, "quick", release=True, tag="-release")
+            S.closure_work(chk, col, rb, "quick", release=True, tag="-release")
+            S.explore_handshake(chk, col, rb, "quick", release=True, tag="-release")
+            S.drop_race(chk, col, rb, tier, release=True, tag="-release")
+            S.faults(chk, col, rb, "quick", release=True, tag="-release")
+            S.big_batches(chk, col, rb, tier, release=True, tag="-release")
+            # the other two link modes of the repository's runners (static, static PIE), release
+            for mode in ("static", "static-pie"):
+                mb = T.build(release=True, mode=mode)
+                M.replay_tours(chk, col, mb, "quick", tag="-" + mode)
+                S.free_running(chk, col, mb, "quick", release=True, tag="-" + mode)
+                S.stray_wake(chk, col, mb, "quick", release=True, tag="-" + mode)
+                S.directed_stray(chk, col, mb, "quick", release=True, tag="-" + mode)
+                S.faults(chk, col, mb, "quick", release=True, tag="-" + mode)
+            chk.extra["link_modes"] = ["dynamic PIE debug", "dynamic PIE release", "static release", "static-pie release"]
+    except T.HangBudget as e:
+        # every further run would cost a full time-out: judge what was recorded so far
+        col.flush("partial")
+        chk.extra["stopped_after_hangs"] = str(e)
+        chk.assumptions.append("run stopped early: %s; the remaining scenarios were not executed" % e)
     return finish(chk, col, pid)
 
 
